@@ -87,11 +87,11 @@ def _df(arr):
     return arr.data if hasattr(arr, "data") else arr
 
 
-def _p_bins(arr, names, unit=1):
+def _p_bins(arr, names, unit=1, log2=True):
     if arr is None:
         return []
     df = _df(arr)
-    return [[names.index(c) + 1, _int(s, unit), _int(e, unit), _genes(g), _int(x, 8)]
+    return [[names.index(c) + 1, _int(s, unit), _int(e, unit), _genes(g), _int(x, 8) if log2 else 0]
             for c, s, e, g, x in zip(df["chromosome"], df["start"], df["end"], df["gene"], df["log2"])]
 
 
@@ -441,7 +441,7 @@ def _op_diagram(inp, rec, names):
          diagram.canvas, diagram.renderPDF) = saved
         CNA.squash_genes = real_sq
         rec["km"] = [[_genes(g), _int(p)] for g, p in km]
-        rec["sq"] = _p_bins(got.get("sq"), names)
+        rec["sq"] = _p_bins(got.get("sq"), names, log2=False)      # the squashed log2 (a kernel value) is not used by the spec
     features, chr_sizes = got["built"]
     extra = [c for c in features if c not in chr_sizes and features[c]]
     if extra:
